@@ -554,6 +554,110 @@ func (c *Ctx) tkRunHistory(kind string, hist tkHistory, v *tkVerdict) {
 	}
 }
 
+// tkRejectingConfigs: configurations, made through the exported API only, in which the character map routes a
+// character to a state that does not accept it (a whitespace or word state narrowed after the map was set up,
+// a punctuation character handed to the word or whitespace state) or in which a state hands out tokens of the
+// Unknown type itself (a symbol registered with that type). "With skip-unknown on there are no Unknown tokens"
+// holds for these as for unmapped characters; every other option leaves such tokens untouched.
+func tkRejectingConfigs(c *Ctx) []tkStage {
+	unknown, _ := c.constByName("tokenizers", "Unknown")
+	mix := func(chars ...string) []string {
+		in := tkOver(append(chars, "a", " "), 2)
+		z, y := chars[0], chars[len(chars)-1]
+		return append(in, "ab"+z+"cd", "x = 1 "+z+y+" + 'q'"+z, "😀a"+y+"b😀", z+z+z, "a "+z+" /* c */ "+y+"\n"+z+"b", "12"+z+"3.5 "+y, "'"+z+"'"+y, "{{a"+z+"}}"+y+"{{ "+z+" }}", "a,"+z+",\""+y+"\"\n"+z)
+	}
+	return []tkStage{
+		{"WhitespaceState().SetWhitespaceChars(0x01, 0x08, false)", func(h *tkHarness) string {
+			return h.stateCall("WhitespaceState", "SetWhitespaceChars", int64(1), int64(8), false)
+		}, mix("\x01", "\x08", "\t")},
+		{"WhitespaceState().SetWhitespaceChars(' ', ' ', false)", func(h *tkHarness) string {
+			return h.stateCall("WhitespaceState", "SetWhitespaceChars", int64(' '), int64(' '), false)
+		}, mix("\t", "\n")},
+		{"SetCharacterState('$', '$', WordState())", func(h *tkHarness) string { return h.setCharState('$', '$', "WordState") }, mix("$")},
+		{"SetCharacterState('@', '~', WhitespaceState())", func(h *tkHarness) string { return h.setCharState('@', '~', "WhitespaceState") }, mix("@", "x", "~")},
+		{"WordState().ClearWordChars(), WordState().SetWordChars('a', 'f', true)", func(h *tkHarness) string {
+			if why := h.stateCall("WordState", "ClearWordChars"); why != "" {
+				return why
+			}
+			return h.stateCall("WordState", "SetWordChars", int64('a'), int64('f'), true)
+		}, mix("z", "Q", "é")},
+		{"SymbolState().Add(\"<=\", Unknown), SymbolState().Add(\"%\", Unknown)", func(h *tkHarness) string {
+			if why := h.stateCall("SymbolState", "Add", "<=", unknown); why != "" {
+				return why
+			}
+			return h.stateCall("SymbolState", "Add", "%", unknown)
+		}, mix("<", "=", "%")},
+	}
+}
+
+// tkRunConfiguredOptions: on a freshly configured instance every option combination of the tier gives the
+// option-free stream of that same instance with whole tokens dropped or rewritten (statement of C15).
+func (c *Ctx) tkRunConfiguredOptions(kind string, cfg tkStage, masks []int, v *tkVerdict) {
+	h := c.newTkHarness(kind)
+	if h.fault != "" {
+		v.note("options", "", h.fault)
+		return
+	}
+	if why := h.setOptions(0); why != "" {
+		v.note("options", "", why)
+		return
+	}
+	if why := cfg.apply(h); why != "" {
+		switch {
+		case strings.Contains(why, " has no ") || strings.Contains(why, "not found"):
+			// this tokenizer does not offer the state or the setter: nothing to configure
+		case strings.Contains(why, " panic "):
+			v.note("options", fmt.Sprintf("%s tokenizer: %s - a valid configuration is refused", kind, why), "")
+		default:
+			v.note("options", "", kind+" tokenizer: "+why)
+		}
+		return
+	}
+	label := fmt.Sprintf("%s tokenizer (configured by %s)", kind, cfg.desc)
+	for i, s := range cfg.inputs {
+		show := fmt.Sprintf("%s on %q", label, s)
+		if i%17 == 0 {
+			noteSample("TOK.options/"+kind+"-configured", show)
+		}
+		if why := h.setOptions(0); why != "" {
+			v.note("options", "", why)
+			return
+		}
+		r := h.tokenize(s)
+		switch r.kind {
+		case "opaque":
+			v.note("options", tkBudget(h, show, r.why, h.maxOK), show+": "+r.why)
+			continue
+		case "panic":
+			v.note("options", show+" panics: "+r.why, "")
+			continue
+		}
+		from, dec, why := h.quoteInfo(kind, r.toks)
+		if why != "" {
+			v.note("options", "", show+": "+why)
+			continue
+		}
+		for _, mask := range masks {
+			if why := h.setOptions(mask); why != "" {
+				v.note("options", "", why)
+				break
+			}
+			got := h.tokenize(s)
+			want := tkExpect(r.toks, from, dec, 0, mask)
+			switch {
+			case got.kind == "opaque":
+				v.note("options", "", show+" with "+optNames(mask)+": "+got.why)
+			case got.kind == "panic":
+				v.note("options", show+" with "+optNames(mask)+" panics: "+got.why, "")
+			case renderToks(got.toks) != renderToks(want) && renderToks(got.toks) != renderToks(tkExpect(r.toks, from, dec, 1, mask)):
+				v.note("options", fmt.Sprintf("%s with %s gives [%s]; the option-free stream [%s] with whole tokens dropped or rewritten, at their own positions, is [%s]", show, optNames(mask), renderToks(got.toks), renderToks(r.toks), renderToks(want)), "")
+			default:
+				v.note("options", "", "")
+			}
+		}
+	}
+}
+
 var tkMemo = map[string]*tkVerdict{}
 var tkMu sync.Mutex
 
@@ -729,6 +833,14 @@ func (c *Ctx) tkRun(kind, part string) *tkVerdict {
 				for i, hist := range c.tkHistories(kind) {
 					if i%nw == w {
 						c.tkRunHistory(kind, hist, v)
+					}
+				}
+			}
+			// options on instances configured so that a character is routed to a state that does not accept it
+			if part == "options" {
+				for i, cfg := range tkRejectingConfigs(c) {
+					if i%nw == w {
+						c.tkRunConfiguredOptions(kind, cfg, masks, v)
 					}
 				}
 			}
